@@ -35,7 +35,7 @@ Inductive block := Blk (ops : list label) (holds : list (nat * hold)) (o : obs).
 (* per connection at the end of the case *)
 Record cres := mkCRes {
   cr_client_closed : bool;     (* the client closed the connection at some point *)
-  cr_idle_at_shutdown : bool;  (* when Shutdown was called it was an idle keep-alive connection: no handler, no request data, marked idle *)
+  cr_idle_at_shutdown : bool;  (* when Shutdown was called it was an idle keep-alive connection as the client sees it: >= 1 request answered, all answered, client present and silent, goroutine waiting in Read (the server's idle marker is NOT consulted) *)
   cr_closed_by_first_pass : bool; (* ... and the server had closed it when Shutdown's first loop iteration was over *)
   cr_done_missed : Z           (* handlers on this connection that were told to answer while a Shutdown call was running (or after one had
                                   given up) and whose ctx.Done() channel was still open at that moment *)
